@@ -323,6 +323,9 @@ class HTTPConnection(_HTTPConnection):
         finally:
             # Reset all stateful properties so connection
             # can be re-used without leaking prior configs.
+            # A request that was rejected half-way (e.g. an illegal header
+            # value) left its lines in http.client's output buffer.
+            del self._buffer[:]
             self.sock = None
             self.is_verified = False
             self.proxy_is_verified = None
